@@ -8,15 +8,15 @@ for sid,e in sorted(T.items()):
     d=V+'/seeded/'+sid
     if not os.path.isdir(d): continue
     ev=open(d+'/eval.log').read() if os.path.exists(d+'/eval.log') else ''
-    checks=re.findall(r'check (C\d+) quick on patched tree: exit=(\d+) (.*)',ev)
-    caught=[c for c,rc,_ in checks if rc=='1']
+    checks=re.findall(r'check (C\d+) quick(?: \([^)]*\))? on patched tree: exit=(\d+) (.*)',ev)
+    caught=sorted({c for c,rc,_ in checks if rc=='1'})
     meta={"id":sid,"property":e['property'],"change":e['change'],"needs_to_manifest":e['needs'],
           "origin":"written by a fresh sub-agent that was given only the property text and a scratch worktree (tools/MUTATION_PROMPT.md)",
           "files":sorted(os.path.basename(f) for f in glob.glob(d+'/*') if not f.endswith('meta.json')),
           "demonstration":("demo: "+"; ".join(l[6:] for l in ev.split('\n') if l.startswith('demo:'))) or e.get('demo',''),
           "existing_tests":e.get('tests','see README.md (packages run by the sub-agent with the change applied)'),
           "what_i_ran":[("VERIF_REPO=<scratch worktree with patch.diff applied on /repo main> ./check %s quick -> exit %s; %s"%(c,rc,rest)) for c,rc,rest in checks]+e.get('extra_runs',[]),
-          "caught_by":caught,"missed_by":[c for c,rc,_ in checks if rc=='0'],"notes":e.get('notes','')}
+          "caught_by":caught,"missed_by":sorted({c for c,rc,_ in checks if rc=='0'}-set(caught)),"notes":e.get('notes','')}
     json.dump(meta,open(d+'/meta.json','w'),indent=1)
     rows.append('| %s | %s | %s | %s | %s |'%(sid,e['property'],e['change'][:110],e['needs'][:110],', '.join(caught) or ('MISSED' if checks else 'not yet run')))
 open(V+'/SEEDED.md','w').write('# Seeded changes (realistic breakage written by independent sub-agents)\n\n| id | property | change | needs | caught by |\n|---|---|---|---|---|\n'+'\n'.join(rows)+'\n')
